@@ -173,6 +173,18 @@ def krausSort {d : Nat} (l : List (EigPair d)) : List (EigPair d) :=
 def krausScale {d : Nat} (e : EigPair d) : Mat CRat d d :=
   Mat.smul (CRat.ofRat e.sqrtVal) (unflat e.vec)
 
+/-- gate.py:to_kraus_matrices_from_hs step 3: `for i, value in enumerate(k.flatten()): if value == 0: continue / elif value < 0: e_i_theta = value / abs(value); _k = 1 / e_i_theta * k / else: k` and the loop's `else: k` (abs is the kernel parameter absFlat; `<` on complex is numpy's lexicographic order) -/
+def phaseFactorGen {d : Nat} (k : Mat CRat d d) (absFlat : Vec Rat (d * d)) : CRat :=
+  match (List.finRange (d * d)).find? (fun x => (flat k).get x != 0) with
+  | none => 1
+  | some x =>
+    let value := (flat k).get x
+    if cLtZero value then cInv (value * CRat.ofRat (1 / absFlat.get x)) else 1
+
+/-- gate.py:to_kraus_matrices_from_hs step 3: `_k = 1 / e_i_theta * k` -/
+def phaseFixGen {d : Nat} (k : Mat CRat d d) (absFlat : Vec Rat (d * d)) : Mat CRat d d :=
+  Mat.smul (phaseFactorGen k absFlat) k
+
 /-- gate.py:is_cp = mutil.is_positive_semidefinite(sparse Choi, atol): `if is_hermitian(matrix, atol): … np.all(eigvals_not_close_zero >= 0) else: return False` with `close_zero = np.isclose(eigvals, 0, atol=atol, rtol=0.0)` (eigvalsh is the kernel parameter) -/
 def isCpGen {d : Nat} (choi : Mat CRat (d * d) (d * d)) (eigs : List (EigPair d)) (atol : Rat) : Bool :=
   isHermitian choi atol && eigs.all fun e => closeZero e.val atol || decide (0 ≤ e.val)
